@@ -7,4 +7,4 @@ props="$*"
 [ -z "$props" ] && props=$(python3 -c "import json; print(' '.join(c['property_id'] for c in json.load(open('MANIFEST.json'))['checks']))")
 [ -d lean/.lake/build ] || ./setup.sh >/dev/null 2>&1
 for s in $seeds; do for p in $props; do echo "$s $p"; done; done | \
-  xargs -P 6 -L 1 sh -c 'out=$(VERIF_SEED=$0 ./check $1 '"$tier"' 2>&1); rc=$?; echo "$out" | tail -1 | sed "s/^/rc=$rc /"; [ $rc -ne 0 ] && echo "$out" | grep -E "VIOLATION|INFRA|Error" | head -3'
+  xargs -P 6 -L 1 sh -c 'out=$(VERIF_SEED=$0 ./check $1 '"$tier"' 2>&1); rc=$?; echo "$out" | tail -1 | sed "s/^/rc=$rc /"; [ $rc -ne 0 ] && echo "$out" | grep -E "VIOLATION|INFRA|Error" | head -3; true'
